@@ -1,15 +1,140 @@
 /-
   The chunker model computes the pure chunking rule (C09 T5).
+
+  `ChunkRulePhases`: hasher invariant (`HWin`, `HInv`) and the loops `initLoop`/`feedN`/`scanN`.
+  `ChunkRuleNext`: one `RollingHashChunker::next` at a chunk start = `specCut` (`next_spec`).
+  Here: `SC.drain` with the whole source buffered against `specChunksFrom` / `fixedChunksFrom`,
+  and the two reads of `chunkAll`.
 -/
 import Bita.Model.Chunker
 import Bita.Spec.Chunking
 import Bita.Proofs.HashWindow
+import Bita.Proofs.SpecChunks
+import Bita.Proofs.ChunkRuleNext
 
 namespace Bita.Proofs
 open Bita Bita.Spec
 
+namespace CR
+
+/-- What the read that sees the end of the source emits. -/
+def tailOf (sc : SC) : List (Nat × Nat) :=
+  if sc.have_ = 0 then [] else [(sc.start, sc.have_)]
+
+theorem drain_rolling {algo data} (f : FilterConfig) (hv : f.Valid) : ∀ (fuel s : Nat) (h : Hasher),
+    Start algo f.window data s h → s ≤ data.length → data.length - s < fuel →
+    ∃ cs sc', SC.drain fuel ⟨s, data.drop s, data.length - s,
+        .rolling (RHParams.ofConfig f) ⟨h, 0⟩⟩ = (cs, sc') ∧
+      sc'.have_ = sc'.rest.length ∧
+      cs ++ tailOf sc' = specChunksFrom algo f data fuel s := by
+  intro fuel
+  induction fuel with
+  | zero => intro s h _ _ hf; omega
+  | succ fuel ih =>
+    intro s h st hs hf
+    rw [SC.drain, specChunksFrom]
+    by_cases hz : data.length - s = 0
+    · simp only [hz, if_true]
+      refine ⟨[], _, rfl, by simp; omega, ?_⟩
+      simp [tailOf, show data.length ≤ s by omega]
+    · have hlt : s < data.length := by omega
+      simp only [hz, if_false, show ¬ data.length ≤ s by omega, Chunker.next]
+      have hn := next_spec f hv hlt st
+      cases hc : specCut algo f data s with
+      | none =>
+        rw [hc] at hn
+        obtain ⟨st', e⟩ := hn
+        simp only [e]
+        refine ⟨[], _, rfl, by simp, ?_⟩
+        simp [tailOf, hz]
+      | some L =>
+        rw [hc] at hn
+        obtain ⟨h', e, hi⟩ := hn
+        have hb := SpecChunks.specCut_bounds algo f data s L hv hlt hc
+        have hL : L ≠ 0 := by omega
+        obtain ⟨cs, sc', e', hh, hcs⟩ := ih (s + L) h' (.inl hi) (by omega) (by omega)
+        simp only [e, hL, if_false, List.drop_drop]
+        rw [show data.length - s - L = data.length - (s + L) by omega, e']
+        exact ⟨_, _, rfl, hh, by simp [hcs]⟩
+
+theorem drain_fixed {data : Bytes} (n : Nat) (hn : 1 ≤ n) : ∀ (fuel s : Nat),
+    s ≤ data.length → data.length - s < fuel →
+    ∃ cs sc', SC.drain fuel ⟨s, data.drop s, data.length - s, .fixed n⟩ = (cs, sc') ∧
+      sc'.have_ = sc'.rest.length ∧
+      cs ++ tailOf sc' = fixedChunksFrom n data.length fuel s := by
+  intro fuel
+  induction fuel with
+  | zero => intro s _ hf; omega
+  | succ fuel ih =>
+    intro s hs hf
+    rw [SC.drain, fixedChunksFrom]
+    by_cases hz : data.length - s = 0
+    · simp only [hz, if_true]
+      refine ⟨[], _, rfl, by simp; omega, ?_⟩
+      simp [tailOf, show data.length ≤ s by omega]
+    · simp only [hz, if_false, show ¬ data.length ≤ s by omega, Chunker.next]
+      by_cases hfit : n ≤ data.length - s
+      · obtain ⟨cs, sc', e', hh, hcs⟩ := ih (s + n) (by omega) (by omega)
+        have hn0 : n ≠ 0 := by omega
+        simp only [hfit, if_true, hn0, if_false, List.drop_drop, show s + n ≤ data.length by omega]
+        rw [show data.length - s - n = data.length - (s + n) by omega, e']
+        exact ⟨_, _, rfl, hh, by simp [hcs]⟩
+      · simp only [hfit, if_false, show ¬ s + n ≤ data.length by omega]
+        refine ⟨[], _, rfl, by simp, ?_⟩
+        simp [tailOf, hz]
+
+theorem drain_have_zero (fuel : Nat) (sc : SC) (h : sc.have_ = 0) : SC.drain fuel sc = ([], sc) := by
+  cases fuel <;> simp [SC.drain, h]
+
+theorem run_bytes (sc : SC) (n : Nat) (s : List Rd) (cs : List (Nat × Nat)) (sc1 : SC)
+    (e : SC.drain (sc.have_ + 1) sc = (cs, sc1)) :
+    SC.run sc (.bytes n :: s) =
+      if sc1.have_ = sc1.rest.length then cs ++ tailOf sc1
+      else cs ++ SC.run { sc1 with
+        have_ := sc1.have_ + min (max n 1) (sc1.rest.length - sc1.have_) } s := by
+  rw [SC.run]
+  simp only [e]
+  rfl
+
+/-- `chunkAll` in terms of one `drain` over the whole source. -/
+theorem chunkAll_eq_drain (cfg : Config) (data : Bytes) (cs : List (Nat × Nat)) (sc' : SC)
+    (e : SC.drain (data.length + 1) ⟨0, data, data.length, Chunker.ofConfig cfg⟩ = (cs, sc'))
+    (hh : sc'.have_ = sc'.rest.length) :
+    chunkAll cfg data = cs ++ tailOf sc' := by
+  unfold chunkAll chunkStream
+  rw [run_bytes _ _ _ [] _ (drain_have_zero _ _ rfl)]
+  by_cases hz : data.length = 0
+  · rw [drain_have_zero _ _ hz] at e
+    cases e
+    simp [tailOf, hz]
+  · have hz' : ¬ 0 = data.length := fun h => hz h.symm
+    simp only [hz', if_false, List.nil_append, Nat.zero_add, Nat.sub_zero]
+    rw [show min (max data.length 1) data.length = data.length by omega,
+      run_bytes _ _ _ cs sc' e, if_pos hh]
+
+end CR
+
+open CR in
 theorem chunkAll_eq_specChunks (cfg : Config) (hv : cfg.Valid) (data : Bytes) :
     chunkAll cfg data = specChunks cfg data := by
-  sorry
+  cases cfg with
+  | rollsum f =>
+    have hw : winAt f.window data 0 = List.replicate f.window 0 := by simp [winAt]
+    have st : Start .roll f.window data 0 (.roll (RollSum.new f.window)) := by
+      refine .inl ⟨⟨rfl, ?_, ?_⟩, fun h => by cases h⟩
+      · rw [hw]; simp
+      · rw [hw]; exact RollOK_new _
+    obtain ⟨cs, sc', e, hh, hcs⟩ := drain_rolling (algo := .roll) (data := data) f hv
+      (data.length + 1) 0 (.roll (RollSum.new f.window)) st (Nat.zero_le _) (by omega)
+    exact (chunkAll_eq_drain _ _ cs sc' (by simpa [Chunker.ofConfig] using e) hh).trans hcs
+  | buzhash f =>
+    obtain ⟨cs, sc', e, hh, hcs⟩ := drain_rolling (algo := .buz) (data := data) f hv
+      (data.length + 1) 0 (.buz (BuzHash.new f.window)) (.inr ⟨rfl, rfl, rfl⟩) (Nat.zero_le _)
+      (by omega)
+    exact (chunkAll_eq_drain _ _ cs sc' (by simpa [Chunker.ofConfig] using e) hh).trans hcs
+  | fixed n =>
+    obtain ⟨cs, sc', e, hh, hcs⟩ := drain_fixed (data := data) n hv (data.length + 1) 0
+      (Nat.zero_le _) (by omega)
+    exact (chunkAll_eq_drain _ _ cs sc' (by simpa [Chunker.ofConfig] using e) hh).trans hcs
 
 end Bita.Proofs
